@@ -3,12 +3,12 @@
 STRINGS = {
     "kind": "tlc_replay", "name": "strings", "module": "MCDeb822Strings.tla", "cfg": "MCDeb822Strings.cfg",
     "stage": "deb822_strings",
-    "consts": {"quick": {"N": 5}, "thorough": {"N": 7}},
+    "consts": {"quick": {"N": 5, "M": 7}, "thorough": {"N": 7, "M": 10}},
     "workers": {"quick": 8, "thorough": 16},
     "timeout": {"quick": 300, "thorough": 3000},
     "henv": {"quick": {"VERIF_MAPS": 3}, "thorough": {"VERIF_MAPS": 4}},
 }
-STRINGS_SMALL = dict(STRINGS, name="strings4", consts={"quick": {"N": 4}, "thorough": {"N": 6}})
+STRINGS_SMALL = dict(STRINGS, name="strings4", consts={"quick": {"N": 4, "M": 6}, "thorough": {"N": 6, "M": 8}})
 DOCS = {
     "kind": "tlc_replay", "name": "docs", "module": "MCDeb822Docs.tla", "cfg": "MCDeb822Docs.cfg",
     "stage": "deb822_docs",
@@ -54,7 +54,7 @@ EDIT_TRACE = {
 
 REL_STRINGS = {
     "kind": "tlc_replay", "name": "rel_strings", "module": "MCRelStrings.tla", "cfg": "MCRelStrings.cfg", "stage": "rel_strings",
-    "consts": {"quick": {"N": 3, "M": 5}, "thorough": {"N": 4, "M": 7}},
+    "consts": {"quick": {"N": 3, "M": 5, "M2": 5}, "thorough": {"N": 4, "M": 7, "M2": 6}},
     "workers": {"quick": 8, "thorough": 16}, "timeout": {"quick": 300, "thorough": 3000},
     "henv": {"quick": {"VERIF_MAPS": 3}, "thorough": {"VERIF_MAPS": 4}},
 }
@@ -124,7 +124,7 @@ PROPS = {
         "claimed": True,
         "technique": "TLA+ editor model (tree-shaped I-layer) checked against the property relation on every edge by TLC; every edge replayed as a history on a live object; recorded histories validated against the trace specification",
         "level_text": "TLC checks on every edge of the bounded document graph that the implementation-shaped editor step (spec/Deb822Edit.tla) satisfies the property relation (spec/Deb822EditP.tla: list effect on the reported content, identity of every line outside the touched field, strict re-read equals reported content, earlier handles see the edit); every edge is replayed on a live object from its base document through the shortest history and the observed text/content compared with the predicted one; any step that differs, and every step of seeded random histories on repository documents, is judged by the same relation in TLC (trace validation).",
-        "level_note": "bounded graph (<= 2/3 paragraphs x <= 2 fields, 11 base layouts incl. comments, blank runs, missing final newline, duplicate names, built and parsed origins); strict reader trusted for the re-read clause only together with the spec's own reading of the printed lines",
+        "level_note": "bounded graph (<= 2/3 paragraphs x <= 2 fields, 13 base layouts incl. comments, blank runs, missing final newline, duplicate names, built and parsed origins); strict reader trusted for the re-read clause only together with the spec's own reading of the printed lines",
         "stages": [EDIT_EDGES, EDIT_TRACE],
         "rule": "every edge (document, operation) of the TLC state graph, replayed with its shortest history on a live object under 2-3 concretisations; plus seeded random histories of 10-60 calls on repository documents; distinct = distinct (base, history, operation) resp. distinct (operation, pre-text)",
         "exhaustive": {"quick": True, "thorough": True},
@@ -144,7 +144,7 @@ PROPS = {
         "claimed": True,
         "technique": "TLA+ relation lexer + recursive-descent parser machine model-checked by TLC (fidelity, termination bound); every behaviour replayed on the real tolerant/strict/single-entry/single-relation readers",
         "level_text": "spec/Rel.tla models the lexer and the lossless parser control point by control point; TLC proves for every class string up to the bound (substvars allowed or not) and every generated well-formed field that each token enters the tree exactly once and that the parser terminates within a linear step bound; each behaviour is replayed on Relations::parse_relaxed (both modes), Relations/Entry/Relation::from_str under several concretisations, comparing printed text, strict-iff-no-error and the substring clause; the syntax tree (via the cfg-guarded dump hook) and the error count are compared with the machine (drift only).",
-        "level_note": "bounded: all strings over the 18-class alphabet up to length 3 (4 thorough), up to 5 (7) over the 9 classes that open nested groups; plus generated fields",
+        "level_note": "bounded: all strings over the 18-class alphabet up to length 3 (4 thorough), up to 5 (7) over the 9 classes that open nested groups, up to 5 (6) over the 9 classes of complete groups and separators; plus generated fields",
         "stages": [REL_STRINGS, REL_DOCS],
         "rule": "every class string over the relation alphabet up to the bound x allow_substvar, and every generated field; distinct = distinct (class string, mode) of length >= 2",
         "exhaustive": {"quick": True, "thorough": True},
@@ -303,7 +303,7 @@ PROPS = {
         "level_text": "StepBound / LossyBound (spec/Deb822.tla), StepBound (spec/Rel.tla) and Terminates (spec/MCPgp.tla) prove on the models that each hand-written machine consumes its input in a linear number of steps and has no bad control point; the behaviours of those models (all deb822 class strings, all relation class strings incl. unterminated groups, generated typed documents with truncations and seeded mutations, PGP line sequences incl. CRLF) are concretised and passed to all 57 entry points (readers of deb822-lossless, debian-control, debian-copyright, dep3, apt-sources; field-level texts also embedded in six document templates); a panic is caught per call, non-termination or memory blow-up by the worker watchdog (5 s per call, 6 GiB); repetitive and nested patterns are scaled to 2K-32K repetitions under the same absolute ceiling.",
         "level_note": "bounded input shapes as in C01/C09/C19/C20; the complexity clause is checked as an absolute time ceiling on scaled inputs, not measured as a polynomial; getters that unwrap a field parse are not entry points",
         "stages": [dict(STRINGS_SMALL, name="ep_deb822", stage="ep_deb822"),
-                   dict(REL_STRINGS, name="ep_rel", stage="ep_rel", consts={"quick": {"N": 3, "M": 4}, "thorough": {"N": 4, "M": 6}},
+                   dict(REL_STRINGS, name="ep_rel", stage="ep_rel", consts={"quick": {"N": 3, "M": 4, "M2": 4}, "thorough": {"N": 4, "M": 6, "M2": 5}},
                         henv={"quick": {"VERIF_MAPS": 2, "VERIF_SCALE": "quick"}, "thorough": {"VERIF_MAPS": 3, "VERIF_SCALE": "thorough"}}),
                    {"kind": "tlc_replay", "name": "ep_typed", "module": "MCTypedDocs.tla", "cfg": "MCTypedDocs.cfg", "stage": "ep_typed",
                     "consts": {"quick": {"NSamples": 1, "Deep": "FALSE"}, "thorough": {"NSamples": 3, "Deep": "FALSE"}},
